@@ -541,4 +541,31 @@ pub mod props {
         if names.len() > 0 { lemma_c18_env_value_is_env_value_in(names.drop_first()); }
     }
 //@@ end
+
+//@@ lemma
+//@@ unit lemma.C09.separator_is_never_delivered tags=C09
+    /// C09 "the separator itself is never delivered as a value" and "everything after the first `--` is positional data": in the
+    /// state State::construct is proved to build (`dd_rule`), and in every state reachable from it by parsers that keep the trait
+    /// invariant `step` (same items, consumed stays consumed), the first `--` is not available to any consumer - and every
+    /// consumer (take_flag, take_arg, take_cmd, take_positional_word: proved) only ever takes available items; every item after it is a
+    /// PosWord (never matched as a name, command or value: lemma.C09.posword_inert), no item before it is
+    pub proof fn lemma_c09_separator(s0: State, s: State, m: int)
+        requires
+            dd_rule(s0.items@, s0.item_state@),
+            s.items == s0.items, s.item_state.len() == s0.item_state.len(),
+            forall|i: int| 0 <= i < s0.item_state.len() && !present(#[trigger] s0.item_state[i]) ==> !present(s.item_state[i]),
+            first_posword(s.items@, m),
+        ensures
+            !s.avail(m), // #the_separator_is_consumed_from_the_start_and_stays_consumed
+            forall|i: int| m < i < s.items.len() ==> #[trigger] s.items[i] is PosWord, // #everything_after_it_is_positional_data
+            forall|i: int| 0 <= i < m ==> !(#[trigger] s.items[i] is PosWord), // #nothing_before_it_is
+    {
+        assert(s0.item_state[m] is Parsed);
+        assert(!present(s0.item_state[m]));
+        assert forall|i: int| m < i < s.items.len() implies #[trigger] s.items[i] is PosWord by {
+            assert(s0.items@[m] is PosWord);
+            let a = s0.items@[m]; let b = s0.items@[i];
+        }
+    }
+//@@ end
 }
